@@ -6,20 +6,28 @@
 (* Property C11: the image meaning - inode table as a sequence of source identities, entry -> inode       *)
 (* number, data order - is the same for every enumeration order of every directory.                       *)
 (* The source is a root directory with files a, b, c and a sub-directory d with files a, b; src maps      *)
-(* the present file paths to inode identities (equal identity = hard link group).                          *)
+(* the present file paths to inode identities (equal identity = hard link group).  Family Upper: root      *)
+(* with file a, sub-directory d {a, b} and a sub-directory D {a} whose name differs from d in letter case   *)
+(* only: the scan sorts with a comparator - byte order as built; a comparator that folds case (deviation    *)
+(* ScanCaseFold) leaves D and d in the order readdir returned them.                                         *)
 EXTENDS Naturals, Sequences, FiniteSets, TLC, Json
-CONSTANTS Ids, SortBeforeScan, Emit
+CONSTANTS Ids, SortBeforeScan, Emit,
+          Upper,          \* the tree family with the directories d and D
+          ScanCaseFold    \* deviation: the scan's comparator ignores letter case, ties keep the readdir order
 
-TopFiles == {<<"a">>, <<"b">>, <<"c">>}
-SubFiles == {<<"d", "a">>, <<"d", "b">>}
+TopFiles == IF Upper THEN {<<"a">>} ELSE {<<"a">>, <<"b">>, <<"c">>}
+SubFiles == IF Upper THEN {<<"d", "a">>, <<"d", "b">>, <<"D", "a">>} ELSE {<<"d", "a">>, <<"d", "b">>}
 AllFiles == TopFiles \cup SubFiles
-NameIdx(n) == CASE n = "a" -> 1 [] n = "b" -> 2 [] n = "c" -> 3 [] n = "d" -> 4
+Dirs == {"d", "D"}
+NameIdx(n) == CASE n = "D" -> 0 [] n = "a" -> 1 [] n = "b" -> 2 [] n = "c" -> 3 [] n = "d" -> 4          \* byte order: upper case first
+ScanKey(n) == IF ScanCaseFold /\ n = "D" THEN 4 ELSE NameIdx(n)
 
 VARIABLES src, permRoot, permSub
 Perms(S) == {p \in [1..Cardinality(S) -> S] : \A i, j \in 1..Cardinality(S) : i # j => p[i] # p[j]}
-HasSub(s) == \E p \in DOMAIN s : Len(p) = 2
-RootNames(s) == {p[1] : p \in {q \in DOMAIN s : Len(q) = 1}} \cup (IF HasSub(s) THEN {"d"} ELSE {})
-SubNames(s)  == {p[2] : p \in {q \in DOMAIN s : Len(q) = 2}}
+DirNames(s) == {p[1] : p \in {q \in DOMAIN s : Len(q) = 2}}
+RootNames(s) == {p[1] : p \in {q \in DOMAIN s : Len(q) = 1}} \cup DirNames(s)
+SubNamesOf(s, dn) == {p[2] : p \in {q \in DOMAIN s : Len(q) = 2 /\ q[1] = dn}}
+SubNames(s)  == SubNamesOf(s, "d")                                  \* D holds at most one entry: its listing has one order only
 
 Init == /\ src \in UNION {[P -> Ids] : P \in (SUBSET AllFiles) \ {{}}}
         /\ permRoot \in Perms(RootNames(src))
@@ -28,45 +36,53 @@ Next == UNCHANGED <<src, permRoot, permSub>>
 Spec == Init /\ [][Next]_<<src, permRoot, permSub>>
 
 SortNames(S) == [i \in 1..Cardinality(S) |-> CHOOSE n \in S : Cardinality({m \in S : NameIdx(m) < NameIdx(n)}) = i - 1]
-RECURSIVE Flatten(_, _, _)
-Flatten(rootOrder, subOrder, i) ==            \* dir_rec.c: pre-order, a directory is followed by its entries
+(* the scan's sort of one listing: by the comparator's key, equal keys stay in the order readdir gave (perm) *)
+PosIn(perm, n) == CHOOSE i \in 1..Len(perm) : perm[i] = n
+ScanSort(S, perm) == LET less(m, n) == ScanKey(m) < ScanKey(n) \/ (ScanKey(m) = ScanKey(n) /\ PosIn(perm, m) < PosIn(perm, n)) IN
+                     [i \in 1..Cardinality(S) |-> CHOOSE n \in S : Cardinality({m \in S : less(m, n)}) = i - 1]
+RECURSIVE Flatten(_, _, _, _)
+Flatten(s, rootOrder, subOrder, i) ==            \* dir_rec.c: pre-order, a directory is followed by its entries
   IF i > Len(rootOrder) THEN <<>>
   ELSE IF rootOrder[i] = "d"
-       THEN [k \in 1..Len(subOrder) |-> <<"d", subOrder[k]>>] \o Flatten(rootOrder, subOrder, i + 1)
-       ELSE <<<<rootOrder[i]>>>> \o Flatten(rootOrder, subOrder, i + 1)
+       THEN [k \in 1..Len(subOrder) |-> <<"d", subOrder[k]>>] \o Flatten(s, rootOrder, subOrder, i + 1)
+       ELSE IF rootOrder[i] = "D"
+       THEN [k \in 1..Cardinality(SubNamesOf(s, "D")) |-> <<"D", SortNames(SubNamesOf(s, "D"))[k]>>] \o Flatten(s, rootOrder, subOrder, i + 1)
+       ELSE <<<<rootOrder[i]>>>> \o Flatten(s, rootOrder, subOrder, i + 1)
 ScanSeq(s, pr, ps) ==
-  LET ro == IF SortBeforeScan THEN SortNames(RootNames(s)) ELSE pr
-      so == IF SortBeforeScan THEN SortNames(SubNames(s)) ELSE ps
-  IN Flatten(ro, so, 1)
+  LET ro == IF SortBeforeScan THEN ScanSort(RootNames(s), pr) ELSE pr
+      so == IF SortBeforeScan THEN ScanSort(SubNames(s), ps) ELSE ps
+  IN Flatten(s, ro, so, 1)
 
 (* dir_hl.c: first path seen per inode identity is the real file *)
 Primary(s, seq, id) == seq[CHOOSE i \in 1..Len(seq) : s[seq[i]] = id /\ \A j \in 1..(i - 1) : s[seq[j]] # id]
 IsPrimary(s, seq, p) == Primary(s, seq, s[p]) = p
 
 (* fstree: children sorted by name; numbering: sub-directories' children first, then own children *)
-SortedSub(s)  == [i \in 1..Cardinality(SubNames(s)) |-> <<"d", SortNames(SubNames(s))[i]>>]
+SortedSubOf(s, dn) == [i \in 1..Cardinality(SubNamesOf(s, dn)) |-> <<dn, SortNames(SubNamesOf(s, dn))[i]>>]
+SortedSub(s)  == SortedSubOf(s, "d")
 SortedRoot(s) == [i \in 1..Cardinality(RootNames(s)) |-> <<SortNames(RootNames(s))[i]>>]
-NonLinks(s, seq, paths) == SelectSeq(paths, LAMBDA p : p = <<"d">> \/ IsPrimary(s, seq, p))
-NumberTab(s, seq) ==            \* inode table after alloc_inode_num_dfs: sequence of node paths, root last
-  NonLinks(s, seq, SortedSub(s)) \o NonLinks(s, seq, SortedRoot(s)) \o <<<<>>>>
+IsDirPath(p) == p = <<>> \/ (Len(p) = 1 /\ p[1] \in Dirs)
+NonLinks(s, seq, paths) == SelectSeq(paths, LAMBDA p : IsDirPath(p) \/ IsPrimary(s, seq, p))
+NumberTab(s, seq) ==            \* inode table after alloc_inode_num_dfs: sequence of node paths, root last; D sorts before d
+  NonLinks(s, seq, SortedSubOf(s, "D")) \o NonLinks(s, seq, SortedSubOf(s, "d")) \o NonLinks(s, seq, SortedRoot(s)) \o <<<<>>>>
 
 (* reorder_hard_links: a hard link's target must not be numbered after the directory holding the link *)
 IndexOf(tab, p) == CHOOSE i \in 1..Len(tab) : tab[i] = p
-ChildrenOf(s, dirp) == IF dirp = <<>> THEN SortedRoot(s) ELSE IF dirp = <<"d">> THEN SortedSub(s) ELSE <<>>
+ChildrenOf(s, dirp) == IF dirp = <<>> THEN SortedRoot(s) ELSE IF IsDirPath(dirp) THEN SortedSubOf(s, dirp[1]) ELSE <<>>
 MoveBefore(tab, from, to) ==    \* element at index from (> to) is moved to index to, the others shift up
   [k \in 1..Len(tab) |-> IF k < to \/ k > from THEN tab[k] ELSE IF k = to THEN tab[from] ELSE tab[k - 1]]
 RECURSIVE ReorderKids(_, _, _, _, _)
 ReorderKids(s, seq, tab, i, kids) ==          \* returns <<tab, i>>
   IF kids = <<>> THEN <<tab, i>>
   ELSE LET c == Head(kids) IN
-       IF c = <<"d">> \/ IsPrimary(s, seq, c) THEN ReorderKids(s, seq, tab, i, Tail(kids))
+       IF IsDirPath(c) \/ IsPrimary(s, seq, c) THEN ReorderKids(s, seq, tab, i, Tail(kids))
        ELSE LET tgt == Primary(s, seq, s[c])  ti == IndexOf(tab, tgt) IN
             IF ti <= i THEN ReorderKids(s, seq, tab, i, Tail(kids))
             ELSE ReorderKids(s, seq, MoveBefore(tab, ti, i), i + 1, Tail(kids))
 RECURSIVE Reorder(_, _, _, _)
 Reorder(s, seq, tab, i) ==
   IF i > Len(tab) THEN tab
-  ELSE IF tab[i] # <<>> /\ tab[i] # <<"d">> THEN Reorder(s, seq, tab, i + 1)
+  ELSE IF ~IsDirPath(tab[i]) THEN Reorder(s, seq, tab, i + 1)
   ELSE LET r == ReorderKids(s, seq, tab, i, ChildrenOf(s, tab[i])) IN Reorder(s, seq, r[1], r[2] + 1)
 
 Ident(s, p) == IF p \in DOMAIN s THEN <<"file", s[p]>> ELSE <<"dir", p>>
@@ -81,7 +97,7 @@ DataOrder(s, pr, ps) ==
   LET seq == ScanSeq(s, pr, ps)
       RECURSIVE Walk(_)
       Walk(paths) == IF paths = <<>> THEN <<>>
-                     ELSE IF Head(paths) = <<"d">> THEN SelectSeq(SortedSub(s), LAMBDA p : IsPrimary(s, seq, p)) \o Walk(Tail(paths))
+                     ELSE IF IsDirPath(Head(paths)) THEN SelectSeq(SortedSubOf(s, Head(paths)[1]), LAMBDA p : IsPrimary(s, seq, p)) \o Walk(Tail(paths))
                      ELSE IF IsPrimary(s, seq, Head(paths)) THEN <<Head(paths)>> \o Walk(Tail(paths))
                      ELSE Walk(Tail(paths))
   IN [i \in 1..Len(Walk(SortedRoot(s))) |-> s[Walk(SortedRoot(s))[i]]]
